@@ -38,7 +38,7 @@ func init() {
 	pd.RequiredProbes = append(pd.RequiredProbes, "http-handler-exercised", "cobra-command-exercised")
 }
 
-var c14httpKinds = []string{"build", "build-doc-damaged", "build-wrong-ctype", "build-empty", "build-badjson", "build-wrongtypes", "build-template", "verify", "verify-damaged", "verify-nokey", "verify-badkey", "key", "root", "bulk-garbage", "bulk-damaged", "unknown-route", "build-huge-type", "bulk-sign-nokey", "validate-head-nulls", "lib-sign-nil"}
+var c14httpKinds = []string{"build", "build-doc-damaged", "build-wrong-ctype", "build-empty", "build-badjson", "build-wrongtypes", "build-template", "verify", "verify-damaged", "verify-nokey", "verify-badkey", "key", "root", "bulk-garbage", "bulk-damaged", "unknown-route", "build-huge-type", "bulk-sign-nokey", "validate-head-nulls", "lib-sign-nil", "build-yaml-keys"}
 var c14cobraKinds = []string{"build", "build-envelop", "build-type", "build-set", "validate", "sign", "sign-nokey", "verify", "verify-nokeyfile", "correct-credit", "correct-data", "correct-baddata", "correct-options", "replicate", "bulk", "version", "unknown-flag", "keygen-stdout"}
 
 func planC14entry(c *Ctx, run int64) *Plan {
@@ -60,7 +60,7 @@ func planC14entry(c *Ctx, run int64) *Plan {
 		op.S2 = n.Ptr
 		op.S3 = Pick(r, []string{"", "remove", "null", "retype", "setstr", "emptyobj", "emptyarr", "dupelem", "delelem"})
 		op.I = int64(r.IntN(1 << 20))
-		op.J = int64(r.IntN(8))
+		op.J = int64(r.IntN(12))
 		p.Ops = append(p.Ops, op)
 	}
 	return p
@@ -164,6 +164,18 @@ func execC14entry(x *X) {
 				path, body = "/bulk", append(js(map[string]any{"action": "validate", "req_id": "a", "payload": map[string]any{"data": data}}), []byte("\n{\"action\":\"build\",\"payload\":{\"data\":5}}\n")...)
 			case "unknown-route":
 				path = "/nope"
+			case "build-yaml-keys":
+				// YAML input whose mappings have keys that are not strings, alone, under a template, as a template
+				x.faultClass = ""
+				odd := []byte("supplier: {1: x}\ncustomer:\n  ? [a, b]\n  : y\nlines:\n  - {2.5: z}\n")
+				switch op.J % 3 {
+				case 0:
+					body = js(map[string]any{"data": odd, "template": docOnly})
+				case 1:
+					body = js(map[string]any{"data": docOnly, "template": odd})
+				default:
+					body = js(map[string]any{"data": odd})
+				}
 			case "bulk-sign-nokey":
 				x.faultClass = ""
 				// a server started without a key, asked to sign by a request that names none
@@ -253,7 +265,14 @@ func execC14entry(x *X) {
 				args, in = []string{"build", "--type", Pick(RNG(op.I, 1, 2), []string{"bill.Invoice", "org.Party", "nope.Nothing", ""}), "-"}, docOnly
 			case "build-set":
 				args, in = []string{"build", "--set", "currency=ZZZ", "--set-string", "code=9", "--set", ".=x", "-"}, docOnly
-				switch op.J % 4 {
+				switch op.J % 6 {
+				case 4:
+					// a YAML mapping whose key is not a string, set over a member that is an object
+					x.faultClass = ""
+					args = []string{"build", "--set", "supplier={1: x}", "-"}
+				case 5:
+					x.faultClass = ""
+					args = []string{"build", "--set", ".={supplier: {1: x}, lines: [{2: y}]}", "-"}
 				case 1:
 					args = []string{"build", "--set", "=foo", "-"}
 				case 2:
